@@ -297,7 +297,7 @@ fn run(args: Args) -> Report {
     let nsteps = if args.thorough() { 60 } else { 12 };
     let mut n = 0u64;
     while t0.elapsed().as_secs_f64() < args.budget_s {
-        let case_seed = r.next_u64();
+        let Some(case_seed) = args.next_case(&mut r) else { break };
         run_case(&mut rep, &mut journal, case_seed, nsteps, if args.thorough() { 30 } else { 12 }, true, &args.out, args.shard);
         n += 1;
     }
